@@ -19,7 +19,7 @@ FN = ['parsePkgLength', 'parseNumConstant', 'parseString', 'parseNameString', 'n
 class C12(flow.Spec):
     prop = 'C12'
     props_files = ['theories/Props/C12.v', 'theories/Props/C12_examples.v', 'theories/Props/C12_reader_trans.v']
-    model_targets = ['theories/Aml/RunC12.vo', 'theories/Aml/ParserProofsTop.vo', 'theories/Aml/ParserTotalTop.vo', 'theories/Aml/ParserTotalCalls.vo', 'theories/Aml/ParserTotalReloc.vo', 'theories/Aml/ParserTotalMerge.vo', 'theories/Aml/ParserTotalResolve.vo', 'theories/Aml/ParserTotalDeferW.vo', 'theories/Aml/ParserTotalDeferV.vo']
+    model_targets = ['theories/Aml/RunC12.vo', 'theories/Aml/ParserProofsTop.vo', 'theories/Aml/ParserTotalTop.vo', 'theories/Aml/ParserTotalCalls.vo', 'theories/Aml/ParserTotalReloc.vo', 'theories/Aml/ParserTotalMerge.vo', 'theories/Aml/ParserTotalResolve.vo', 'theories/Aml/ParserTotalDeferW.vo', 'theories/Aml/ParserTotalDeferV.vo', 'theories/Aml/ParserTotalChain.vo']
     pkg = 'device/acpi/aml'
     harness = [os.path.join(H, 'zz_verif_c12_test.go'), os.path.join(H, 'zz_verif_amlcommon_test.go')]
     test = 'TestVerifC12$'
@@ -102,6 +102,14 @@ class C12(flow.Spec):
                'carries a []byte") is DERIVED: the first four passes run as in parseAML_body (parse_head) and parseDeferredBlocks preserve it from any '
                'state whenever they return (partial-correctness judgement tyk with a tracked fresh object, Aml/ParserTotalTyped.v), so it holds at '
                'resolveMethodCalls whenever it holds of the pool ParseAML starts with',
+               'C12_parse_total_partial_nopanic_rest: ALL passes after connectNamedObjArgs chained exactly as in parseAML_body (parse_rest = resolve loop, '
+               'then parse_tail; lemma parseAML_body_rest) never panic from any state with R, valid indexes, reader / whole-parser invariants, empty scope '
+               'stack, live parentless ScopeBlock root, the Scope-directive shape, TM2 (Method typing with plain leading children), PEND (pending deferred '
+               'objects have a parent and are no name-path-or-call objects), the []byte typing, and the memory bound lp + lp*(8*len+3) + 4 <= 2^32-1.  '
+               'C12_parse_total_partial_resolve_loop_keeps: the resolve loop preserves TM2, PEND and the typing (abstract invariant threaded through '
+               'ParserTotalMerge / ParserTotalResolve, instantiated in ParserTotalShape.v).  C12_parse_total_partial_nopanic_tail_pend: the inductive count '
+               'dcnt of the walk theorem is replaced by PEND - the count exists (forest induction by depth) and is bounded by the pool size '
+               '(ParserTotalChain.v).  NOT derived: that passes 1-2 establish the directive shape, TM2 and PEND; fuel is NOT analysed',
                'the unproved parts of C12_full_parse_total (no Panic / OutOfFuel and R for the later passes, outcome class of load) are covered '
                'by the correspondence of the extracted model (explicit Panic / OutOfFuel outcomes, all passes modelled) with the real parser '
                'and by the harness monitors (outcome class, watchdog, independent link checker, PrettyPrint)',
